@@ -243,7 +243,7 @@ PROPS = {
     "C02": {
         "level": "proof",
         "level_prefix": "Partial proof -- contracts discharged without bound on the mechanisms named below, not the whole statement (bounded stand-ins and what is left out are listed): ",
-        "units": ["compressors", "msgbuilder", "msgsections", "wirehdr", "starterr", "streamtarget"],
+        "units": ["compressors", "msgbuilder", "msgsections", "wirehdr", "starterr", "streamtarget", "rdnames", "rdcompose", "rdbin", "charstr"],
         "extra_searches": [
             {"bin": "c02_search_stream_limit", "crate": "replay", "release": True,
              "what": "messages over StreamTarget<Vec<u8>> (alone and under each compressor) filled so that the last push lands on every length from 65530 to 65540 octets: a push within 65535 succeeds, "
@@ -279,7 +279,7 @@ PROPS = {
             {"bin": "d4_compress_pointer_beyond_3fff", "finding": "D4"},
             {"bin": "d57_set_opcode_wide_value", "finding": "D57"},
         ],
-        "explanation": "Unit streamtarget (real text of StreamTarget::{update_shim, append_slice, truncate, as_stream_slice, as_dgram_slice}; only `len.to_be_bytes()` is substituted, the mutable range slice and copy_from_slice are the real text): update_shim succeeds exactly when the message behind the two prefix octets is at most 65535 octets long and then writes that length, big-endian, into the prefix, touching nothing else; after a successful append or truncate the prefix is the message length. Unit wirehdr (unbounded): every accessor of Header, HeaderCounts, OptHeader and OptRcode against the bit positions of "
+        "explanation": "The RDLENGTH a non-compressing target writes is rdlen() of the record data: the units of C05 that prove rdlen() == number of octets compose_rdata() appends (rdnames, rdcompose, rdbin, charstr) also run here (seed C02-16: MINFO rdlen counting one mailbox twice). Unit streamtarget (real text of StreamTarget::{update_shim, append_slice, truncate, as_stream_slice, as_dgram_slice}; only `len.to_be_bytes()` is substituted, the mutable range slice and copy_from_slice are the real text): update_shim succeeds exactly when the message behind the two prefix octets is at most 65535 octets long and then writes that length, big-endian, into the prefix, touching nothing else; after a successful append or truncate the prefix is the message length. Unit wirehdr (unbounded): every accessor of Header, HeaderCounts, OptHeader and OptRcode against the bit positions of "
                        "RFC 1035 4.1.1 / RFC 6891 6.1.3 -- a getter reads exactly its field, a setter changes exactly its field to the value given "
                        "(the whole octet array after the call is stated), set_flags leaves ID/opcode/Z/rcode alone, inc_*count refuses exactly at "
                        "65535 and changes nothing then, the two halves of an extended rcode reassemble (lemma_opt_rcode_parts). Then: " +
